@@ -198,7 +198,7 @@ func TestC08(t *testing.T) {
 	}
 
 	// end to end through the CLI: exit status of real runs
-	n = kit.N(12, 80)
+	n = kit.N(40, 240)
 	for i := 0; i < n; i++ {
 		cliCase(o, r, i)
 	}
@@ -282,6 +282,12 @@ func cliCase(o *kit.Out, r *kit.Rand, idx int) {
 		o.Count("cli", "tolerance at the end of its range")
 	}
 	setupFails := r.Chance(10)
+	// the scenario's own teardown (a cleanup registered during setup) fails - in any of the ways a
+	// cleanup can fail; the iterations themselves are not affected
+	teardownHow := 0
+	if !setupFails && idx%5 == 3 {
+		teardownHow = 1 + (idx/5)%5 // every way in turn
+	}
 
 	var started atomic.Int64
 	name := fmt.Sprintf("c08cli%d", idx)
@@ -289,6 +295,23 @@ func cliCase(o *kit.Out, r *kit.Rand, idx int) {
 	inst.Add(name, func(t *f1testing.T) f1testing.RunFn {
 		if setupFails {
 			t.Fail()
+		}
+		if teardownHow > 0 {
+			t.Cleanup(func() {
+				switch teardownHow {
+				case 1:
+					t.Fail()
+				case 2:
+					t.FailNow()
+				case 3:
+					panic(errors.New("teardown panicked with an error"))
+				case 4:
+					panic("teardown panicked with a string")
+				default:
+					var m map[string]int
+					m["x"] = 1
+				}
+			})
 		}
 		return func(t *f1testing.T) {
 			k := started.Add(1)
@@ -307,7 +330,7 @@ func cliCase(o *kit.Out, r *kit.Rand, idx int) {
 		args = append(args, "--ignore-dropped")
 	}
 	var err error
-	if r.Chance(30) && !setupFails {
+	if r.Chance(30) && !setupFails && teardownHow == 0 {
 		// a second execution in one process stands on its own: first a run in which every iteration
 		// fails (or none), then the run whose verdict is compared
 		was := f
@@ -327,6 +350,10 @@ func cliCase(o *kit.Out, r *kit.Rand, idx int) {
 		// business (C03); skip the case rather than guess the counts
 		o.Count("cli", "skipped-count-mismatch")
 		return
+	}
+	if teardownHow > 0 {
+		nerrs = 1
+		o.Count("cli", "failing teardown")
 	}
 	// users mode never drops, so the counts of the run are known exactly
 	c := vcase{nerrs, uint64(s), uint64(ff), 0, ign, uint64(mf), mr}
